@@ -470,7 +470,11 @@ fn gather_builtin_features_from_flags_in_gitconfig(
     opt: &cli::Opt,
     git_config: &GitConfig,
 ) {
-    for child_feature in builtin_features.keys() {
+    // Iterate in a fixed order: the position of a feature in the list determines its priority,
+    // and HashMap iteration order differs from run to run.
+    let mut child_features: Vec<&String> = builtin_features.keys().collect();
+    child_features.sort();
+    for child_feature in child_features {
         if let Some(true) = git_config.get::<bool>(&format!("{git_config_key}.{child_feature}")) {
             gather_builtin_features_recursively(child_feature, features, builtin_features, opt);
         }
